@@ -227,7 +227,7 @@ def parse_result_lines(txt, out):
     return out
 
 
-def run_k1(k1exe, casefile, eps="0,2", batch=1, variants="all", timeout=1200):
+def run_k1(k1exe, casefile, eps="0,2", batch=1, variants="all", timeout=900):
     cmd = [k1exe, casefile, "--variants", variants, "--eps", eps, "--batch", str(batch)]
     try:
         p = common.run(cmd, env=common.lib_env(), timeout=timeout)
@@ -422,6 +422,35 @@ class Pass:
         k1cells = [c for c in cells if c[0] not in AUX_CIPHERS and c[3] not in AUX_HASHES]
         auxcells = [c for c in cells if c[0] in AUX_CIPHERS or c[3] in AUX_HASHES]
         tagname = "s%d_%s" % (self.seed, "ip" if self.inplace else "oop")
+        # ---- pre-flight: the cipher-only and hash-only rows alone, one process per variant.  A row that crashes or
+        # hangs (60 s watchdog of k1_algo per job) is reported and its cells are left out of the full sweep, which
+        # would otherwise spend a watchdog period on every one of its ~100 cells x 14 paths.
+        base = [c for c in k1cells if (acc.get(c, 0) & 2) and c[4] == 1 and
+                ((c[3] == H_NULL and c[0] != C_NULL) or (c[0] == C_NULL and c[1] == 16 and c[2] == 1 and c[3] != H_NULL))]
+        bad_c, bad_h = set(), set()
+        vnames = env.get("variant_names") or []
+        if vnames:
+            pf = os.path.join(env["work"], "pre_" + tagname + ".txt")
+            with open(pf, "w") as f:
+                f.write("\n".join(k1.item_line(items[c]) for c in base) + "\n")
+            pres_ = {}
+            with cf.ThreadPoolExecutor(max_workers=len(vnames)) as ex:
+                for out, err, to in ex.map(lambda v: run_k1(env["k1"], pf, "0", 1, v, 900), vnames):
+                    parse_result_lines(out, pres_)
+                    if to:
+                        self.note((0, 0, 0, 0, 0), "-", -1, "hang", detail="pre-flight run did not finish")
+            for (iid, var, ep), o in pres_.items():
+                c = cell_of_id(iid)
+                if "crash" in o:
+                    self.note(c, var, ep, "hang" if str(o["crash"]) == "14" else "crash", sig=o["crash"],
+                              detail="base row (cipher-only / hash-only job) %s" % ("never completes" if str(o["crash"]) == "14" else "crashes"))
+                    (bad_h if c[0] == C_NULL else bad_c).add((c[0], c[1], c[2]) if c[0] != C_NULL else c[3])
+            self.stats["preflight_rows"] += len(base)
+        if bad_c or bad_h:
+            before = len(k1cells)
+            k1cells = [c for c in k1cells if (c[0], c[1], c[2]) not in bad_c and c[3] not in bad_h]
+            auxcells = [c for c in auxcells if (c[0], c[1], c[2]) not in bad_c and c[3] not in bad_h]
+            self.stats["cells_skipped_after_preflight"] += before - len(k1cells)
         # ---- round 1: every k1 cell on every variant, job API and burst API
         res, hung, vtab = run_k1_sharded(env["k1"], env["work"], "r1_" + tagname, [k1.item_line(items[c]) for c in k1cells],
                                          batch=self.batch)
@@ -789,6 +818,11 @@ def setup(res=None):
     env["aux"] = common.build_harness("c06_aux", extra_src=["imbh.c"])
     env["work"] = os.path.join(common.BUILD, "c06")
     os.makedirs(env["work"], exist_ok=True)
+    try:
+        p = common.run([env["k1"], "--list-variants"], env=common.lib_env(), timeout=300)
+        env["variant_names"] = [l.split()[0][8:] for l in p.stdout.splitlines() if l.startswith("variant=")]
+    except Exception:
+        env["variant_names"] = []
     mt = MTools()
     mt.drv = k1.build_model_driver()
     mt.work = env["work"]
